@@ -582,11 +582,137 @@ impl Scenario for Ledger {
     }
 }
 
+
+// ------------------------------------------------------------------ scenario 4: local-state query payloads
+
+/// small structured CBOR: the shapes tag-dispatching decoders (`[tag, fields..]`) look at
+fn gen_structured(ch: &mut Choices, out: &mut Vec<u8>, depth: u32) {
+    match ch.draw("sc.kind", if depth > 3 { 5 } else { 9 }) {
+        0 => out.push(ch.draw("sc.uint", 24) as u8),
+        1 => {
+            out.push(0x18);
+            out.push(ch.draw("sc.u8", 256) as u8);
+        }
+        2 => {
+            let n = *ch.pick("sc.bytes.len", &[0usize, 4, 28, 32]);
+            if n < 24 { out.push(0x40 | n as u8) } else { out.extend([0x58, n as u8]) }
+            out.extend(ch.bytes("sc.bytes", n));
+        }
+        3 => out.push(*ch.pick("sc.simple", &[0xf4u8, 0xf5, 0xf6, 0x20, 0x60])),
+        4 => {
+            out.extend([0x1a]);
+            out.extend((ch.draw("sc.u32", 1 << 32) as u32).to_be_bytes());
+        }
+        5 | 6 => {
+            // [tag, fields..]
+            let n = ch.draw("sc.arr.len", 6);
+            out.push(0x80 | n as u8);
+            for i in 0..n {
+                if i == 0 && ch.chance("sc.tagged", 3, 4) {
+                    out.push(ch.draw("sc.tag", 24) as u8);
+                } else {
+                    gen_structured(ch, out, depth + 1);
+                }
+            }
+        }
+        7 => {
+            let n = ch.draw("sc.map.len", 4);
+            out.push(0xa0 | n as u8);
+            for _ in 0..n {
+                gen_structured(ch, out, depth + 2);
+                gen_structured(ch, out, depth + 1);
+            }
+        }
+        _ => {
+            out.extend([0xd8, *ch.pick("sc.tagnum", &[24u8, 30, 121, 102])]);
+            gen_structured(ch, out, depth + 1);
+        }
+    }
+}
+
+macro_rules! decode_as {
+    ($st:expr, $bytes:expr, $which:expr, $($idx:expr => $t:ty),* $(,)?) => {
+        match $which {
+            $($idx => { guarded($st, concat!("queries_v16::", stringify!($t)), || pallas_codec::minicbor::decode::<$t>($bytes).ok().map(|_| ()))?; })*
+            _ => {}
+        }
+    };
+}
+
+pub struct LocalStatePayloads;
+impl Scenario for LocalStatePayloads {
+    fn name(&self) -> &'static str {
+        "localstate-query-payloads"
+    }
+    fn may_abort(&self) -> bool {
+        true
+    }
+    fn run(&self, cx: &mut RunCx) -> Result<(), Violation> {
+        use pallas_network::miniprotocols as mp;
+        use pallas_network::miniprotocols::localstate::queries_v16 as q;
+        // the node's answer: structured bytes, sometimes damaged further in flight
+        let mut payload = vec![];
+        gen_structured(&mut cx.ch, &mut payload, 0);
+        if cbor::parse_one(&payload).is_err() {
+            payload = vec![0x81, 0x00];
+        }
+        let as_query = cx.ch.chance("as.query", 1, 4);
+        let msg = if as_query { mp::localstate::Message::Query(pallas_codec::utils::AnyCbor::from_raw_bytes(payload.clone())) } else { mp::localstate::Message::Result(pallas_codec::utils::AnyCbor::from_raw_bytes(payload.clone())) };
+        let framed = M1::Lsq(msg).encode().unwrap();
+        let mut stream: Vec<u8> = vec![];
+        for c in framed.chunks(1 + cx.ch.draw("seg.size", 300) as usize) {
+            stream.extend(segment(7, c));
+        }
+        if cx.ch.chance("inflight.fault", 1, 4) {
+            let k = mutate(&mut cx.ch, &mut stream);
+            cx.st.inc(k);
+        }
+        cx.st.inc("fault.structured_random_payload");
+        let pcfg = PipeCfg { short: (cx.ch.draw("cfg.short", 3), 4), ..Default::default() };
+        let mut arrived: Vec<Vec<u8>> = vec![];
+        let aref = &mut arrived;
+        run_sim(cx, |sh| async move {
+            let (mut wa, rb) = pipe("a2b", &sh, &pcfg);
+            let (wb, _ra) = pipe("b2a", &sh, &pcfg);
+            let mut pb = Plexer::new(bearer1(rb, wb));
+            let mut buf = ChannelBuffer::new(pb.subscribe_server(7));
+            let rpb = pb.spawn();
+            let w = tokio::spawn(async move {
+                let _ = wa.write_all(&stream).await;
+                drop(wa);
+            });
+            if let Ok(Ok(M1::Lsq(m))) = tokio::time::timeout(std::time::Duration::from_secs(20), recv1(LSQ, &mut buf)).await {
+                match m {
+                    mp::localstate::Message::Result(x) | mp::localstate::Message::Query(x) => aref.push(x.raw_bytes().to_vec()),
+                    _ => {}
+                }
+            }
+            let _ = w.await;
+            rpb.abort().await;
+            sh.lock().unwrap().st.progress = true;
+            Ok(())
+        })?;
+        for bytes in arrived {
+            let which = cx.ch.draw("result.type", 30);
+            let st = &mut cx.st;
+            decode_as!(st, &bytes, which,
+                0 => q::DRep, 1 => q::CommitteeAuthorization, 2 => q::FuturePParams, 3 => q::GovAction, 4 => q::HotCredAuthStatus,
+                5 => q::NextEpochChange, 6 => q::CostModels, 7 => q::Value, 8 => q::RationalNumber, 9 => q::TransactionOutput,
+                10 => q::BlockQuery, 11 => q::HardForkQuery, 12 => q::LedgerQuery, 13 => q::Request, 14 => q::Credential,
+                15 => q::GovActionId, 16 => q::Anchor, 17 => q::Constitution, 18 => q::Vote, 19 => q::ProposalProcedure,
+                20 => q::DRepState, 21 => q::AccountState, 22 => q::SystemStart, 23 => q::ProtocolParam, 24 => q::UTxOByAddress,
+                25 => q::StakeSnapshots, 26 => q::GenesisConfig, 27 => q::PoolParams, 28 => q::GovState, 29 => q::CommitteeMembersState,
+            );
+        }
+        Ok(())
+    }
+}
+
 pub fn def() -> CheckDef {
     let mut required: Vec<&'static str> = vec![
         "fault.bit_flip", "fault.byte_overwrite", "fault.truncation", "fault.splice", "fault.cbor_length_corruption", "fault.garbage_range", "fault.random_bytes", "fault.deep_nesting", "fault.huge_declared_length", "fault.foreign_protocol_payload",
         "probe.MultiEraBlock::decode.ok", "probe.MultiEraBlock::decode.err", "probe.MultiEraTx::decode.ok", "probe.MultiEraTx::decode.err", "probe.MultiEraHeader::decode.ok", "probe.MultiEraHeader::decode.err",
-        "probe.MultiEraOutput::decode.reached", "probe.Address::from_bytes.ok", "probe.Address::from_bytes.err", "probe.AnyMessage::from_payload.ok",
+        "probe.MultiEraOutput::decode.reached", "fault.structured_random_payload", "probe.queries_v16::q::DRep.reached", "probe.queries_v16::q::BlockQuery.reached", "probe.Address::from_bytes.ok", "probe.Address::from_bytes.err", "probe.AnyMessage::from_payload.ok",
     ];
     for n in NAMES1 {
         required.push(Box::leak(format!("probe.recv1.{n}.ok").into_boxed_str()));
@@ -595,7 +721,7 @@ pub fn def() -> CheckDef {
     CheckDef {
         prop: "C09",
         level: "exploration",
-        batches: vec![batch(Wire1Faults, 12_000, 700_000, true), batch(Wire2Faults, 10_000, 600_000, true), batch(Ledger, 6_000, 300_000, true)],
+        batches: vec![batch(Wire1Faults, 12_000, 700_000, true), batch(Wire2Faults, 10_000, 600_000, true), batch(Ledger, 6_000, 300_000, true), batch(LocalStatePayloads, 10_000, 500_000, true)],
         rule: "a conformant simulated peer streams generated legal messages of every stack-1 / stack-2 protocol (and every block, transaction and header artefact of test_data plus sampled chunk blocks, framed as block-fetch / tx-submission / chain-sync replies) through a corrupting transport: 0..3 faults per stream out of k-bit flips, byte overwrite with CBOR-significant values, range splice (dup/move/delete), truncate-then-EOF, CBOR head/length corruption at real item heads, heads rewritten to declare a huge (2^32 .. 2^64-1) length, garbage ranges, pure random payload, container-nesting runs, payload of another protocol, applied in flight (segment stream incl. headers) or at rest (artefact before framing); real demuxer + typed decoders consume until EOF, decoded stack-2 garbage is fed on into both behaviours, arrived artefacts go through MultiEraBlock/Tx/Header/Output::decode and Address::from_bytes; oracle: no panic in a decode entry point, no process abort (supervised child), runs end by EOF; per-entry-point reached/ok/err counters; non-trivial = completed run with a non-neutral choice; distinct = distinct traces",
         real: vec!["MultiEraBlock::decode, MultiEraTx::decode/decode_for_era, MultiEraHeader::decode, MultiEraOutput::decode, Address::from_bytes", "every stack-1 message decoder via Demuxer + ChannelBuffer::recv_full_msg", "stack-2 read_full_msgs + AnyMessage::from_payload", "InitiatorBehavior / ResponderBehavior on decoded garbage"],
         stub: vec!["serving peer and its corrupting transport (simulated)", "socket (SimPipe)"],
